@@ -46,10 +46,10 @@ PY = isolate.PY
 DEFAULTS = {"x86": "SPR", "aarch64": "V2"}
 CLASSES = [
     "corpus", "mix", "unknown", "zero", "heavy10", "heavy100", "len99", "len100", "len101", "len150",
-    "len_marked", "len_lines", "len_noarch", "noarch", "corpus_noarch", "corpus_lines", "mix_marked", "allunknown",
+    "len_marked", "len_lines", "len_noarch", "len_marked_intonly", "noarch", "corpus_noarch", "corpus_lines", "mix_marked", "allunknown",
 ]
 
-LEN_CLASSES = ["len99", "len100", "len101", "len150", "len_marked", "len_lines", "len_noarch"]
+LEN_CLASSES = ["len99", "len100", "len101", "len150", "len_marked", "len_lines", "len_noarch", "len_marked_intonly"]
 BASE_CLASSES = [c for c in CLASSES if c not in LEN_CLASSES]
 
 HEAVY = {
@@ -296,6 +296,22 @@ def make_case(cls, isa, arch, r, pools):
         lines = [r.choice(hv) for _ in range(n)]
         for _ in range(r.randrange(0, 4)):
             lines.insert(r.randrange(len(lines) + 1), r.choice(pool))
+    elif cls == "len_marked_intonly" and isa == "x86":
+        # integer-only x86 code with hexadecimal literals: the ISA guessed from the text (no --arch) is AArch64, the analysis
+        # falls back to the x86 parser; the byte markers must still be found (no large-kernel note for a marked file)
+        regs = ["r8", "r9", "r10", "r11", "r12", "r13", "r14", "r15", "rsi", "rdi"]
+        body = []
+        for k in range(r.randrange(102, 125)):
+            x = r.random()
+            if x < 0.5:
+                body.append("addq $0x%x, %%%s" % (r.choice([16, 31, 111]), r.choice(regs)))
+            elif x < 0.8:
+                body.append("movl $0x%x, %%%sd" % (r.choice([111, 18, 26]), r.choice(regs[:8])))
+            else:
+                body.append("movq 0x%x(%%rsp), %%%s" % (r.choice([16, 24, 32]), r.choice(regs)))
+        lines = ["movl $111, %ebx", ".byte 100,103,144"] + body + ["movl $222, %ebx", ".byte 100,103,144"]
+        case["arch"] = None
+        case["marked"] = True
     elif cls.startswith("len"):
         n = {"len99": 99, "len100": 100, "len101": 101, "len150": 150}.get(cls, r.randrange(102, 140))
         # n counts PARSED (non-blank) lines; some of them are comments / labels, blanks are sprinkled in addition
@@ -846,6 +862,7 @@ def floors(tier):
     f["class:partial"] = 10 if q else 150
     f["class:widecol"] = 3 if q else 60
     f["dict_taken_before_the_text_report"] = 80 if q else 1500
+    f["class:len_marked_intonly"] = 1 if q else 20
     f["thirds_next_to_wide_cell"] = 3 if q else 60
     f["partial_tp_unknown_lt_known_lines"] = 8 if q else 120
     return f
